@@ -113,6 +113,13 @@ func (*AdaptedClientConn) waitForReady(ctx context.Context, conn *grpc.ClientCon
 	}
 
 	for connState != connectivity.Ready {
+		// A closed connection never changes its state again, waiting for it would block
+		// until the context is done (forever, if it has no deadline). This happens when Close() is called
+		// right after the connection's state has been loaded by getConn().
+		if connState == connectivity.Shutdown {
+			return
+		}
+
 		if !conn.WaitForStateChange(ctx, connState) {
 			return
 		}
